@@ -54,7 +54,7 @@ M = [
  # ---- C12
  ("c12-select-stale-xid-acked", "C12", [("handlers/dhcp4_spoofer/request.go", "(lease.State == StateDiscover && (!bytes.Equal(lease.XID, p.XId()) || lease.IPOffer != reqIP)) ||", "(lease.State == StateDiscover && lease.IPOffer != reqIP) ||")]),
  ("c12-renew-expired-acked", "C12", [("handlers/dhcp4_spoofer/request.go", "\t\t\tlease.Addr.IP != reqIP || !bytes.Equal(lease.Addr.MAC, p.CHAddr()) ||\n\t\t\tlease.DHCPExpiry.Before(time.Now()) {", "\t\t\tlease.Addr.IP != reqIP || !bytes.Equal(lease.Addr.MAC, p.CHAddr()) {")]),
- ("c12-capture-keeps-old-subnet", "C12", [("handlers/dhcp4_spoofer/lease.go", "\t\tif lease.subnet.LAN == subnet.LAN &&\n\t\t\tbytes.Equal(lease.Addr.MAC, mac) {", "\t\tif (lease.subnet.LAN == subnet.LAN || lease.State == StateAllocated) &&\n\t\t\tbytes.Equal(lease.Addr.MAC, mac) {")]),
+ ("c12-capture-keeps-old-subnet", "C12", [("handlers/dhcp4_spoofer/lease.go", "\t\tif lease.subnet == subnet && // (the two subnets can have the same prefix: compare the subnets, not their prefixes)", "\t\tif (lease.subnet == subnet || lease.State == StateAllocated) && // (the two subnets can have the same prefix: compare the subnets, not their prefixes)")]),
  # ---- C15
  ("c15-single-fold", "C15", [("layer_ip4.go", "\ts = s>>16 + s&0xffff\n\ts = s + s>>16\n\treturn ^uint16(s)", "\ts = s>>16 + s&0xffff\n\treturn ^uint16(s)")]),
  ("c15-odd-tail-inverted", "C15", [("layer_ip4.go", "if csumcv&1 == 0 {\n\t\ts += uint32(b[csumcv])", "if csumcv&1 == 1 {\n\t\ts += uint32(b[csumcv])")]),
